@@ -21,7 +21,7 @@ def tla_set(xs):
 
 def gen(module, constants, invariants, label, chk, timeout=1500, xmx="10g", simulate=None, depth=None):
     if module == "MC_LoadScript":
-        constants = dict({"CorruptBytes": "{}", "TypedTargets": "{}", "Arch": '"msgpack"', "NumNeg": "0", "NumPos": "0"}, **constants)
+        constants = dict({"CorruptBytes": "{}", "TypedTargets": "{}", "Arch": '"msgpack"', "NumNeg": "0", "NumPos": "0", "NumBase": "0", "NumLeafOnly": "FALSE"}, **constants)
     cfg = "SPECIFICATION Spec\nCONSTANTS\n" + "".join("  %s = %s\n" % kv for kv in constants.items()) + \
           "INVARIANTS " + " ".join(invariants) + "\n"
     r = vlib.tlc(module, cfg=write_cfg("%s_%s.cfg" % (module, label), cfg), timeout=timeout, xmx=xmx, simulate=simulate, depth=depth)
